@@ -473,3 +473,46 @@ Proof.
     set (r := search_node s (sv_view sv) (abs_path (w ++ [cl])) SlLstat) in *.
     destruct (sr_child r), (sr_parent r); destruct Hc as [Hc|[Hc|[Hc|Hc]]]; rewrite Hc; reflexivity.
 Qed.
+
+(* ---- Link (the old name does not denote a symbolic link: Link on a link is a listed deviation) ---------------- *)
+Definition not_symlink (s : fsys) (sv : sview) (cs : list str) : Prop :=
+  forall par kind name n t m, klookup s sv false false (abs_path cs) = WNode par kind name n ->
+                              get (f_heap s) n <> Some (NSym t m).
+
+Theorem step_link (s : fsys) (sv : sview) (co w : list str) (cl : str) :
+  step_hyps s sv -> path_ok s sv SlLstat co -> path_ok s sv SlLstat (w ++ [cl]) -> not_symlink s sv co ->
+  let o := abs_path co in
+  let p := abs_path (w ++ [cl]) in
+  (fst (link s (sv_view sv) o p), proj_res Linux (snd (link s (sv_view sv) o p))) = k_link true s sv o p.
+Proof.
+  intros H Hpo Hp Hns o p.
+  pose proof (resolve s sv SlLstat co H Hpo) as Ro. pose proof (resolve s sv SlLstat (w ++ [cl]) H Hp) as R.
+  destruct Hpo as (Hgo & _ & _ & Hnfo). destruct Hp as (Hg & Hk1 & _ & Hnf).
+  change (follow_of SlLstat) with false in Ro, R, Hk1. change (precise_of SlLstat) with true in Ro, R.
+  destruct (klookup_pm s sv false w cl Hg Hk1) as (Hkn & Hkg & Hpm).
+  unfold o, p, link, k_link, win. rewrite (sh_os _ _ H). cbn [ostype_eqb]. unfold not_symlink in Hns.
+  pose proof (klookup_final s sv false (w ++ [cl]) Hg) as Hfin.
+  set (ro := search_node s (sv_view sv) (abs_path co) SlLstat) in *.
+  set (rn := search_node s (sv_view sv) (abs_path (w ++ [cl])) SlLstat) in *.
+  destruct (klookup s sv false false (abs_path co)) as [opar okind oname oc|opar oname omd| |e] eqn:HKo; cbn [walk_rel] in Ro.
+  - destruct Ro as (O1 & O2 & O3 & _). rewrite O2, O1. cbn [is_file_exists negb]. rewrite Hpm.
+    pose proof (fun t m => Hns _ _ _ _ t m eq_refl) as Hns'.
+    destruct (klookup s sv false false (abs_path (w ++ [cl]))) as [par kind name n|par name md| |e] eqn:HK; cbn [walk_rel] in R.
+    + destruct (Hkn _ _ _ _ eq_refl) as (-> & ->). destruct Hfin as (F1 & _). destruct R as (R1 & _).
+      rewrite R1, F1. reflexivity.
+    + pose proof (Hkg _ _ _ eq_refl) as ->. destruct Hfin as (F1 & F2 & _). destruct R as (R1 & R2 & R3 & R4).
+      destruct (at_name_views _ _ _ _ _ _ (R4 eq_refl)) as (V1 & V2 & _).
+      rewrite R1, V2, R3, V1, F1. cbn [is_not_exist negb].
+      rewrite (admin_perm_on s sv par _ H) by (apply node_is_dir_valid; exact F2).
+      rewrite (admin_kperm s sv par 3 H) by (apply node_is_dir_valid; exact F2). cbn [negb].
+      rewrite (sh_admin _ _ H). cbn [orb negb andb]. unfold node_is_dir.
+      destruct (get (f_heap s) oc) as [[ch m|dt k i m|t m]|] eqn:Hgoc; try reflexivity; [exfalso; exact (Hns' t m eq_refl)|congruence].
+    + destruct R.
+    + destruct R as (R1 & R2). destruct (werr_cases _ _ R1 Hnf) as (Hc & ->).
+      destruct Hc as [Hc|[Hc|[Hc|Hc]]]; rewrite Hc in *; try reflexivity.
+      rewrite (R2 eq_refl eq_refl). reflexivity.
+  - destruct Ro as (O1 & O2 & _). rewrite O2, O1. reflexivity.
+  - destruct Ro.
+  - destruct Ro as (O1 & _). destruct (werr_cases _ _ O1 Hnfo) as (Hc & ->).
+    destruct (sr_child ro); destruct Hc as [Hc|[Hc|[Hc|Hc]]]; rewrite Hc; reflexivity.
+Qed.
